@@ -19,6 +19,9 @@
 #include <tins/tcp_ip/stream_follower.h>
 #include <tins/ip_reassembler.h>
 #include <tins/pdu_allocator.h>
+#include <tins/packet_writer.h>
+#include <tins/sniffer.h>
+#include <unistd.h>
 #include <thread>
 #include <mutex>
 #include <condition_variable>
@@ -317,6 +320,29 @@ static void wl_build(uint64_t seed, int iters, Dig& d, Yield& y) {
     }
 }
 
+// C17: a capture file per thread - written with PacketWriter, read back with FileSniffer (the per-frame callbacks and the
+// link-type dispatch of libtins run concurrently in different threads; libpcap keeps its state in the handle)
+static std::string SCRATCH_DIR = ".";
+static void wl_pcap(uint64_t seed, int iters, Dig& d, Yield& y) {
+    vh::Rng rng(seed);
+    char name[64]; snprintf(name, sizeof(name), "/thr-%llu-%p.pcap", (unsigned long long)seed, (void*)&d);
+    std::string path = SCRATCH_DIR + name;
+    static const int eth_ids[] = {0, 1, 2, 4, 6, 16, 18, 19, 21, 22, 23, 46, 47, 48, 50};
+    try {
+        {
+            PacketWriter wr(path, DataLinkType<EthernetII>());
+            for (int i = 0; i < iters * 3; ++i) {
+                Entry e; std::unique_ptr<PDU> p(catalogue(eth_ids[rng.below(15)], rng, e)); y();
+                Packet pk(*p, Timestamp(std::chrono::microseconds(1000000LL * (100 + i) + rng.below(1000000)))); wr.write(pk); y();
+            }
+        }
+        FileSniffer sn(path); int n = 0;
+        while (Packet pk = sn.next_packet()) { chain(d, pk.pdu()); d.bytes(pk.pdu()->serialize()); d.u((uint64_t)pk.timestamp().seconds()); d.u((uint64_t)pk.timestamp().microseconds()); ++n; y(); }
+        d.u(n); d.ok(n == iters * 3);
+    } catch (std::exception& ex) { d.s(typeid(ex).name()); }
+    unlink(path.c_str());
+}
+
 // user-defined protocols, registered the documented way (tests/src/allocators_test.cpp does the same)
 template <size_t n> class UserPDU : public PDU {
 public:
@@ -332,14 +358,15 @@ template <size_t n> const PDU::PDUType UserPDU<n>::pdu_flag = static_cast<PDU::P
 
 typedef void (*Workload)(uint64_t, int, Dig&, Yield&);
 struct WlDef { const char* name; Workload fn; };
-static const WlDef WORKLOADS[] = {{"catalogue", wl_catalogue}, {"dns", wl_dns}, {"tags", wl_tags}, {"reasm", wl_reasm}, {"addr", wl_addr}, {"radiotap", wl_radiotap}, {"wifi", wl_wifi}, {"build", wl_build}};
+static const WlDef WORKLOADS[] = {{"catalogue", wl_catalogue}, {"dns", wl_dns}, {"tags", wl_tags}, {"reasm", wl_reasm}, {"addr", wl_addr}, {"radiotap", wl_radiotap}, {"wifi", wl_wifi}, {"build", wl_build}, {"pcap", wl_pcap}};
 static const int NWL = sizeof(WORKLOADS) / sizeof(WORKLOADS[0]);
 static int wl_index(const std::string& n) { for (int i = 0; i < NWL; ++i) if (n == WORKLOADS[i].name) return i; return -1; }
 
 struct Barrier { std::mutex mu; std::condition_variable cv; int waiting, total; bool go; Barrier(int t) : waiting(0), total(t), go(false) {}
     void wait() { std::unique_lock<std::mutex> l(mu); if (++waiting == total) { go = true; cv.notify_all(); } else while (!go) cv.wait(l); } };
 
-static void scenario(const vh::Json& sc, vh::Out& out, vh::Rng& rng, const vh::Args&) {
+static void scenario(const vh::Json& sc, vh::Out& out, vh::Rng& rng, const vh::Args& args) {
+    { std::string o = args.get("out", "./x"); size_t sl = o.rfind('/'); SCRATCH_DIR = sl == std::string::npos ? "." : o.substr(0, sl); }
     if (sc.has("cells")) {      // the inventory of writable namespace-scope objects (read from the object files by the family script)
         out.begin("\"cls\":\"inventory\""); vh::W w; w.O().kv("e", "inventory").kraw("cells", sc["cells"].dump()).E(); out.event(w); out.end(); return; }
     std::vector<int> wl; for (size_t i = 0; i < sc["wl"].size(); ++i) { int w = wl_index(sc["wl"][i].str()); if (w < 0) throw std::runtime_error("unknown workload " + sc["wl"][i].str()); wl.push_back(w); }
